@@ -313,6 +313,27 @@ func (w *PullWorld) Op(op *PullOp) {
 					workerConflicts = len(resp.Conflicts)
 					workerAcked = int(resp.Acked)
 				}
+			case "nack":
+				req := &workerapipb.NackRequest{Endpoint: endpoint, Delay: durationpb.New(op.Delay)}
+				if op.Dead {
+					req.Dead, req.Reason = true, "worker_gave_up"
+				}
+				if len(ids) == 1 {
+					req.LeaseId = ids[0]
+				} else {
+					req.LeaseIds = ids
+				}
+				resp, e := w.Node.Worker.Nack(ctx, req)
+				err = e
+				if resp != nil {
+					workerConflicts = len(resp.Conflicts)
+				}
+			case "extend":
+				id := ""
+				if len(ids) > 0 {
+					id = ids[0]
+				}
+				_, err = w.Node.Worker.Extend(ctx, &workerapipb.ExtendRequest{Endpoint: endpoint, LeaseId: id, ExtendBy: durationpb.New(op.Delay)})
 			default:
 				err = grpcstatus.Error(codes.Unimplemented, "not driven")
 			}
@@ -464,7 +485,9 @@ func (w *PullWorld) Op(op *PullOp) {
 		return
 	}
 	if r == nil {
-		if status != 404 {
+		// 400: the request was turned away as malformed before the endpoint was
+		// looked up (the order of the two checks is not specified); nothing is served
+		if status != 404 && status != 400 {
 			w.add("C11.unknown.endpoint", "C11,C10", loc, "unknown pull endpoint answered %d", status)
 		}
 		return
@@ -577,6 +600,9 @@ func (w *PullWorld) Op(op *PullOp) {
 		}
 		cls := w.Model.applyLease(now, opExtend, strings.TrimSpace(ids[0]), op.Delay, "")
 		want := 204
+		if op.Transport == "worker" {
+			want = 200 // gRPC OK
+		}
 		if cls != "ok" {
 			want = 409
 		}
@@ -794,7 +820,7 @@ func GenPullProgram(t *rapid.T, authHeavy bool) *Program {
 				op.Kind = "list"
 				op.Token = rapid.SampledFrom([]string{"ok_route", "none", "other_route", "prefix", "case", "basic"}).Draw(t, "admintoken")
 			case "worker":
-				op.Kind = rapid.SampledFrom([]string{"dequeue", "dequeue", "ack"}).Draw(t, "wkind")
+				op.Kind = rapid.SampledFrom([]string{"dequeue", "dequeue", "dequeue", "ack", "ack", "nack", "nack", "extend"}).Draw(t, "wkind")
 			default:
 				op.Kind = rapid.SampledFrom([]string{"dequeue", "dequeue", "dequeue", "ack", "ack", "nack", "nack", "extend"}).Draw(t, "kind")
 				if rapid.IntRange(0, 4).Draw(t, "shape?") == 0 {
